@@ -45,7 +45,7 @@ def main():
                 cmds = []
                 m = re.findall(r'g\+\+[^\n;&|]*', cmd if isinstance(cmd, str) else ' ; '.join(cmd))
                 if m:
-                    c = m[0].replace('/tmp/seed_%s' % pid, root)
+                    c = re.sub(r'/tmp/seed\d*_%s' % pid, root, m[0])
                     c = re.sub(r'(\S*/)?demo\.cpp', d, c)
                     c = re.sub(r'-o\s+\S+', '', c) + ' -o ' + exe
                     cmds.append(c)
